@@ -156,8 +156,11 @@ impl C10 {
                 &format!("{}|panic|{}|{}", class, c.site(), c.norm_msg()),
                 json!({"panic": c.msg, "at": format!("{}:{}", c.file, c.line), "len": bytes.len(), "bytes": render_bytes(bytes)}),
             ),
-            Ok(Err(_)) => {
+            Ok(Err(e)) => {
                 st.err += 1;
+                if let Err(c) = guard(|| (format!("{}", e).len(), format!("{:?}", e).len())) {
+                    cx.violation(&format!("{}|error-rendering-panic|{}|{}", class, c.site(), c.norm_msg()), json!({"panic": c.msg, "bytes": render_bytes(bytes)}));
+                }
             }
             Ok(Ok(lib)) => {
                 st.ok += 1;
